@@ -40,7 +40,7 @@ GARBAGE = ["empty", "truncated", "binary", "array", "delta-no-baseline", "foreig
            "stamped:edges-list", "stamped:edges-scalar", "stamped:edge-weight-null", "stamped:edge-weight-text", "stamped:edge-weight-object", "stamped:nodes-list", "stamped:store-garbage", "stamped:edge-attrs-null", "stamped:edge-not-an-object", "stamped:meta-null"]
 PARTIAL = tuple(g for g in GARBAGE if g.startswith("stamped:"))
 SITES = ["boot-failpoint", "boot-garbage", "gel-merge-candidates", "gel-apply-merge", "gel-split-candidates", "gel-apply-split", "gel-promote", "gel-apply-promotion",
-         "reflect-compute", "reflect-write", "reflect-telemetry", "llm-adapter-build", "llm-adapter-ci-provider", "hybrid-rerank", "fusion", "mmr", "quality-trace",
+         "reflect-compute", "reflect-write", "reflect-telemetry", "llm-adapter-build", "llm-adapter-ci-provider", "hybrid-rerank", "fusion", "mmr", "fusion-and-mmr", "quality-trace",
          "cache-invalidate", "store-batch", "store-all", "store-some", "sidecar"]
 
 
@@ -66,7 +66,8 @@ def site_cfgs(site, rng):
         on = gate_cfg(rng, "gel", True)
         on["graph"]["merge"]["min_avg_w"] = 0.3
         on["graph"]["split"]["weak_edge_thresh"] = 0.3   # preloaded weak edges give the split pass candidates
-        on["graph"]["decay"] = {"half_life_turns": 100000, "floor": 0.0}
+        # edges that keep their weight, or that lose half of it every turn (what a failing pass must not undo)
+        on["graph"]["decay"] = {"half_life_turns": rng.choice([100000, 100000, 1, 2]), "floor": 0.0}
         base = copy.deepcopy(on)
         for k in ("merge", "split", "promotion"):
             base["graph"][k]["enabled"] = False
@@ -95,6 +96,10 @@ def site_cfgs(site, rng):
         base = copy.deepcopy(on)
         base["t2"]["quality"]["mmr"]["enabled"] = False
         return on, base
+    if site == "fusion-and-mmr":
+        # both quality operations fail in one request: the layer is as good as switched off
+        on = {"t2": {"quality": {"enabled": True, "fusion": {"alpha_semantic": 0.6}, "mmr": {"enabled": True, "lambda": 0.5, "k": 3}}}}
+        return on, {"t2": {"quality": {"enabled": False}}}
     if site == "quality-trace":
         on = {"t2": {"quality": {"enabled": False, "shadow": True}}, "perf": {"enabled": True, "metrics": {"report_memory": True}}}
         base = copy.deepcopy(on)
@@ -163,6 +168,9 @@ def install(site, exc, hits, env, garbage=None):
         elif site == "fusion":
             st.enter_context(patched(qops, "fuse", boom))
         elif site == "mmr":
+            st.enter_context(patched(qops, "maybe_apply_mmr", boom))
+        elif site == "fusion-and-mmr":
+            st.enter_context(patched(qops, "fuse", boom))
             st.enter_context(patched(qops, "maybe_apply_mmr", boom))
         elif site == "quality-trace":
             st.enter_context(patched(qual, "_emit_quality_trace", boom))
@@ -282,7 +290,7 @@ def gen_case(rng, sites=None, exc_i=None, garbage=None):
     if sites is None:
         # combinations take at most one site per group whose off/idle baselines would contradict each other
 # (the boot legs keep the hybrid reranker healthy in both runs, so hybrid-rerank shares their group)
-        groups = [["boot-failpoint", "boot-garbage", "hybrid-rerank"], ["fusion", "mmr", "quality-trace"], ["llm-adapter-build", "llm-adapter-ci-provider"], ["store-batch", "store-all", "store-some"]]
+        groups = [["boot-failpoint", "boot-garbage", "hybrid-rerank"], ["fusion", "mmr", "fusion-and-mmr", "quality-trace"], ["llm-adapter-build", "llm-adapter-ci-provider"], ["store-batch", "store-all", "store-some"]]
         pool = [s for s in SITES if not any(s in g for g in groups)] + [rng.choice(g) for g in groups]
         sites = rng.sample(pool, rng.randint(2, 4))
     if sites == ["natural"]:
@@ -374,6 +382,9 @@ def run(case, faulted, sess):
         if late:
             late_base = merge(late_base, base)
     boot = any(s.startswith("boot") for s in case["sites"])
+    if any(s.startswith("gel-") for s in case["sites"]) and not boot and "hybrid-rerank" not in case["sites"] and case["seed"] % 2:
+        # the graph-aware reranker healthy in both runs: what the GEL edges weigh after the turn shows in the next turn's T2 record
+        cfg = merge(cfg, {"t2": {"hybrid": {"enabled": True, "use_graph": True, "edge_threshold": 0.1, "lambda_graph": 1.0, "k_max": 128, "anchor_top_m": 8, "walk_hops": 1, "max_bonus": 10.0}}})
     world = copy.deepcopy(case["world"])
     if boot:
         world["gel"] = None  # a state that has not booted yet carries no GEL graph (the loader installs the containers)
